@@ -3,7 +3,7 @@ import copy
 
 import torch_frame
 
-from harness import core, frame, ragged
+from harness import core, frame, ragged, stress
 
 
 # ------------------------------------------------------------------ case construction
@@ -12,6 +12,9 @@ def _reorder(rng, spec):
     s = copy.deepcopy(spec)
     rng.shuffle(s['feats'])
     rng.shuffle(s['names_order'])
+    for ft in s['feats']:
+        if ft['kind'] == 'dict':
+            rng.shuffle(ft['keys'])       # dict[str, MultiNestedTensor] built in another key order
     return s
 
 
@@ -51,22 +54,24 @@ def perturb(rng, spec):
             pos = rng.choice(ents)
             ft, cell, k = _cellref(b, pos)
             v = cell[k]
+            isf = frame.is_float(ft['payload'])
             if kind == 'cell-big':
-                if ft['payload'] == 'float' and v == -1:
+                if (isf and v == -1) or v < -1:
+                    # a missing / special entry (inf, -inf, -2^31, 3e38, -1.0; integers -2, -7) becomes a plain value
                     cell[k] = rng.randint(0, 9)
                 else:
                     cell[k] = v + rng.choice([1, 2, -1]) if v + 1 <= 9 else v - 1
-                    if ft['payload'] == 'float' and cell[k] == -1:
+                    if isf and cell[k] == -1:
                         cell[k] = v + 1
                 if cell[k] == v:
                     continue
                 return b, False, f"{kind}:{ft['kind']}"
             if kind == 'cell-tiny':
-                if ft['payload'] != 'float' or v < 0:
+                if not isf or v < 0:
                     continue
                 cell[k] = v + frame.TINY
                 return b, True, f"{kind}:{ft['kind']}"
-            if ft['payload'] != 'float' or v == -1:
+            if not isf or v == -1:
                 continue
             cell[k] = -1
             return b, False, f"{kind}:{ft['kind']}"
@@ -229,6 +234,9 @@ def col_partition(rng, spec, k):
                 p['feats'].append(frame.col_sub(ft, a, b))
     ypart = rng.randrange(k)
     for j, p in enumerate(parts):
+        for ft in p['feats']:
+            if ft['kind'] == 'dict' and rng.random() < .4:
+                rng.shuffle(ft['keys'])            # this part's dict is built in another key order
         if rng.random() < .5:
             rng.shuffle(p['feats'])
         p['names_order'] = [ft['s'] for ft in p['feats']]
@@ -247,7 +255,13 @@ class C08(frame.Findings, core.Check):
     driver = 'drv_c07'
     quick_cases = 4000
     thorough_cases = 30000
-    rule = ('frames of C07; row partitions by 0-4 cut points (empty parts allowed, optionally of a frame that is itself '
+    rule = ('hardening families: special values (+-inf, -2^31, 3e38, -1.0; moving data also -0.0, 2^24+2, 2^40) and float64 '
+            'features; dict features / parts built in different key insertion orders; re-use: the same cat issued twice on '
+            'the same part objects, the first result read again, every operand compared with an identically built twin '
+            'afterwards; scale (60 / 120 / 300 cases at stress level 0 / 1 / 2): == on frames with 17..259 / 4 099 rows, '
+            'many columns (<= 1 027) or long cells (equal twins and single-cell / name / target perturbations), row '
+            'partitions into up to 259 / 1 027 parts, column partitions of frames with many columns into up to 33 parts, '
+            'lookups of many names; base: frames of C07; row partitions by 0-4 cut points (empty parts allowed, optionally of a frame that is itself '
             'the result of a selection chain), concatenations of arbitrary selection results, per-stype column '
             'partitions into 1-3 parts (optionally followed by a common row selection), ~20% with a schema / name / '
             'target / shape mutation that must be rejected or with a benign dict-order change; == under single cell '
@@ -267,13 +281,32 @@ class C08(frame.Findings, core.Check):
     )
 
     # -- generation ---------------------------------------------------------------------------------
+    N_SCALE = {0: 60, 1: 120, 2: 300}
+    N_HUGE = {0: 0, 1: 0, 2: 3}      # 16 385 .. 65 539 rows: judged by the direct oracle only
+
     def generate(self, rng, n, tier):
         n_mat = max(8, n // 60)
+        n_scale = min(self.N_SCALE[self.level], n // 2)
         for i in range(n):
             if i < n_mat:
                 d = frame.gen_dataset(rng)
                 ops = frame.gen_sel_ops(rng, d['n'], 2) if rng.random() < .5 else []
                 yield {'kind': 'lookup_mat', 'dataset': d, 'ops': ops}
+                continue
+            if i < n_mat + self.N_HUGE[self.level]:
+                R = rng.choice(stress.LADDER_BIG) + rng.choice([0, 1, 2])
+                if rng.random() < .5:
+                    spec = frame.gen_frame_scaled(rng, self.level, 'rows', R=R, pool='safe')
+                    b, expect, label = perturb(rng, spec)
+                    yield {'kind': 'eq', 'a': spec, 'b': b, 'expect': expect, 'label': label, 'scaled': 'huge',
+                           'oracle_only': True}
+                else:
+                    case = self.gen_rowcat(rng, frame.gen_frame_scaled(rng, self.level, 'rows', R=R, pool='full'), big=True)
+                    case.update(scaled='huge', oracle_only=True)
+                    yield case
+                continue
+            if i < n_mat + n_scale:
+                yield self.gen_scaled(rng)
                 continue
             u = rng.random()
             if u < .3:
@@ -281,11 +314,11 @@ class C08(frame.Findings, core.Check):
             elif u < .55:
                 yield self.gen_colcat(rng)
             elif u < .83:
-                spec = frame.gen_frame(rng)
+                spec = frame.gen_frame(rng, pool='safe')
                 b, expect, label = perturb(rng, spec)
                 yield {'kind': 'eq', 'a': spec, 'b': b, 'expect': expect, 'label': label}
             elif u < .95:
-                spec = frame.gen_frame(rng)
+                spec = frame.gen_frame(rng, pool='full')
                 if rng.random() < .25:
                     yield {'kind': 'make', 'frame': spec, 'expect': 'ok', 'label': 'consistent'}
                 else:
@@ -295,26 +328,84 @@ class C08(frame.Findings, core.Check):
                     else:
                         yield {'kind': 'make', 'frame': b, 'expect': 'raises', 'label': label}
             else:
-                spec = frame.gen_frame(rng, min_feats=1)
+                spec = frame.gen_frame(rng, min_feats=1, pool='full')
                 ops = frame.gen_sel_ops(rng, spec['R'], 2) if rng.random() < .5 else []
                 names = frame.all_names(spec) + ['no_such_col']
                 yield {'kind': 'lookup', 'frame': spec, 'ops': ops + [{'op': 'col', 'name': nm} for nm in names]}
 
-    def gen_rowcat(self, rng):
-        spec = frame.gen_frame(rng)
-        pre = frame.gen_sel_ops(rng, spec['R'], 2) if rng.random() < .35 else []
+    def gen_scaled(self, rng):
+        """the scale family: == on frames with 17..4 099 rows / many columns / long cells (equal twins, single-cell and
+        name perturbations), row partitions into many parts, column partitions of frames with many columns, lookups of
+        many names"""
+        lv = self.level
+        u = rng.random()
+        if u < .4:
+            spec = frame.gen_frame_scaled(rng, lv, rng.choice(['rows', 'rows', 'rows', 'longcells', 'cols']), pool='safe')
+            b, expect, label = perturb(rng, spec)
+            return {'kind': 'eq', 'a': spec, 'b': b, 'expect': expect, 'label': label, 'scaled': spec['scaled']}
+        if u < .75:
+            spec = frame.gen_frame_scaled(rng, lv, rng.choice(['rows', 'rows', 'heavy', 'longcells']), pool='full')
+            case = self.gen_rowcat(rng, spec, big=True)
+        elif u < .9:
+            spec = frame.gen_frame_scaled(rng, lv, rng.choice(['cols', 'cols', 'rows']), pool='full')
+            case = self.gen_colcat(rng, spec, big=True)
+        else:
+            spec = frame.gen_frame_scaled(rng, lv, 'cols', pool='full')
+            names = frame.all_names(spec)
+            names = rng.sample(names, min(len(names), 40)) + ['no_such_col']
+            case = {'kind': 'lookup', 'frame': spec, 'ops': [{'op': 'col', 'name': nm} for nm in names]}
+        case['scaled'] = spec['scaled']
+        return case
+
+    def gen_rowcat(self, rng, spec=None, big=False):
+        """a row concatenation case; a part cut from the very frame it is compared with carries the token 'whole'
+        instead of a copy of that frame (keeps cases with hundreds of parts of a large frame small)"""
+        case = self._gen_rowcat(rng, spec, big)
+        for p in case['parts']:
+            if p['frame'] is case['whole']['frame']:
+                p['frame'] = 'whole'
+        return case
+
+    @staticmethod
+    def parts_of(case):
+        """the parts with the token 'whole' resolved (the frame object is shared, not copied)"""
+        w = case['whole']['frame']
+        return [{'frame': w if p['frame'] == 'whole' else p['frame'], 'ops': p['ops']} for p in case['parts']]
+
+    def _gen_rowcat(self, rng, spec=None, big=False):
+        spec = frame.gen_frame(rng, pool='full') if spec is None else spec
+        pre = frame.gen_sel_ops(rng, spec['R'], 2) if rng.random() < .35 and not big else []
+        many = big and rng.random() < .5          # number of parts from the ladder (then no common pre-selection)
+        if big and not many and rng.random() < .5:
+            weights = frame.row_weights(spec)
+            for attempt in range(50):
+                ix = ragged.gen_big_index(rng, spec['R'], self.level, allow_bad=False, max_len=spec['R'] + 2)
+                if sum(ragged.py_select(weights, ix)) <= ragged.BUDGET[self.level]:
+                    pre = [{'op': 'sel', 'ix': ix}]
+                    break
         n = spec['R']
         for op in pre:
             n = ragged.py_len(op['ix'], n)
         mode = rng.choice(['partition'] * 6 + ['selections'] * 2 + ['mutated'] * 2)
-        case = {'kind': 'cat', 'dim': 0, 'mode': mode, 'whole': {'frame': spec, 'ops': pre}, 'expect': 'equal'}
+        if big:
+            mode = 'partition'
+        case = {'kind': 'cat', 'dim': 0, 'mode': mode, 'whole': {'frame': spec, 'ops': pre}, 'expect': 'equal',
+                'again': rng.random() < .4}
         if mode == 'selections':
             case['parts'] = [{'frame': spec, 'ops': frame.gen_sel_ops(rng, spec['R'], 2)} for _ in range(rng.randint(1, 3))]
             case['expect'] = 'content' if spec['feats'] else 'unjudged'
             return case
         k = rng.choice([1, 2, 2, 3, 3, 4, 5])
+        if many:
+            k = stress.pick_size(rng, self.level, 1027)          # number of parts from the ladder
         cuts = sorted(rng.randint(0, n) for _ in range(k - 1))
         parts = [{'frame': spec, 'ops': pre + [{'op': 'sel', 'ix': ix}]} for ix in frame.slices_for_cuts(cuts, n, rng)]
+        if not big and rng.random() < .25:
+            # every part is built on its own, with its own dict insertion orders (must not matter)
+            for p_ in parts:
+                p_['frame'] = _reorder(rng, spec)
+            if parts and 'names_order' in parts[0]['frame']:
+                case['whole'] = {'frame': parts[0]['frame'], 'ops': pre}   # names / feature order of the first part
         case['parts'] = parts
         if not spec['feats']:
             # suspected defect (reported, not judged here): cat(dim=0) rebuilds the frame without num_rows, so a
@@ -364,13 +455,16 @@ class C08(frame.Findings, core.Check):
                 parts[j]['frame'] = b
         return case
 
-    def gen_colcat(self, rng):
-        spec = frame.gen_frame(rng, min_feats=1)
+    def gen_colcat(self, rng, spec=None, big=False):
+        spec = frame.gen_frame(rng, min_feats=1, pool='full') if spec is None else spec
         k = rng.choice([1, 2, 2, 3])
+        if big and rng.random() < .5:
+            k = rng.choice([5, 9, 17, 33])
         parts = col_partition(rng, spec, k)
         pre = frame.gen_sel_ops(rng, spec['R'], 2) if rng.random() < .3 else []
-        case = {'kind': 'cat', 'dim': 1, 'mode': 'partition', 'whole': {'frame': spec, 'ops': pre}, 'expect': 'equal'}
-        if rng.random() < .25:
+        case = {'kind': 'cat', 'dim': 1, 'mode': 'partition', 'whole': {'frame': spec, 'ops': pre}, 'expect': 'equal',
+                'again': rng.random() < .4}
+        if rng.random() < .25 and not big:
             mut = rng.choice(['dup-name', 'two-targets', 'rows', 'dict-keys', 'kind', 'depth', 'cross-stype-dup', 'empty-list'])
             ok = False
             if mut == 'empty-list':
@@ -524,9 +618,22 @@ class C08(frame.Findings, core.Check):
         return spec['y'] is not None and spec['y']['payload'] == 'float' and -1 in spec['y']['vals']
 
     def real_cat(self, case):
+        def builder():
+            """parts that are cut from the same frame spec are cut from ONE real frame (as a caller partitioning a
+            frame does); a spec is built once per builder"""
+            memo = []
+            def build(spec):
+                for sp, tf in memo:
+                    if sp is spec or sp == spec:
+                        return tf
+                memo.append((spec, frame.build_real(spec)))
+                return memo[-1][1]
+            return build
         try:
-            bases = [frame.build_real(p['frame']) for p in case['parts']]
-            parts = [frame.run_part(b, p['ops']) for b, p in zip(bases, case['parts'])]
+            build = builder()
+            cparts = self.parts_of(case)
+            bases = [build(p['frame']) for p in cparts]
+            parts = [frame.run_part(b, p['ops']) for b, p in zip(bases, cparts)]
         except Exception:
             if case['expect'] not in ('part-raises',):
                 self._findings.append(('cat/part', 'a part of the partition cannot be built', None, None))
@@ -541,6 +648,31 @@ class C08(frame.Findings, core.Check):
             g = None
         if [frame.frame_repr(p) for p in parts] != before:
             self._findings.append(('cat/mutates', 'cat modified its operands', None, None))
+        if case.get('again') and g is not None:
+            # re-use: the same cat on the same part objects once more, the first result read again afterwards, and
+            # every operand compared (with the library's own ==) to an identically built twin
+            rg = frame.frame_repr(g)
+            try:
+                rg2 = frame.frame_repr(torch_frame.cat(parts, case['dim']))
+            except Exception as e:
+                rg2 = f'raises {type(e).__name__}'
+            if rg2 != rg:
+                self._findings.append(('cat/again', 'a second cat of the same parts does not give the same result', None,
+                                       rg2 if isinstance(rg2, str) else None))
+            elif frame.frame_repr(g) != rg:
+                self._findings.append(('cat/again', 'a later cat changed an earlier result', None, None))
+            else:
+                try:
+                    build2 = builder()
+                    twins = [frame.run_part(build2(p['frame']), p['ops']) for p in cparts]
+                    same = [bool(p == t) and bool(t == p) for p, t, ps in zip(parts, twins, cparts)
+                            if not self._has_nan_y(ps['frame'])]
+                    if not all(same):
+                        self._findings.append(('cat/mutates', 'after cat an operand no longer equals an identically '
+                                               'built twin', None, None))
+                except Exception as e:
+                    self._findings.append(('cat/mutates', f'comparing an operand with its twin raises {type(e).__name__}',
+                                           None, None))
         exp = case['expect']
         if g is None:
             if exp in ('equal', 'content', 'content-of-parts'):
@@ -562,7 +694,7 @@ class C08(frame.Findings, core.Check):
             if bad is not None:
                 self._findings.append((f"cat{case['dim']}/partition", f"cat(dim={case['dim']}): {bad}", None, None))
         elif exp in ('content', 'content-of-parts'):
-            refs = [frame.ref_part(frame.ref_of_spec(p['frame']), p['ops']) for p in case['parts']]
+            refs = [frame.ref_part(frame.ref_of_spec(p['frame']), p['ops']) for p in self.parts_of(case)]
             ref = dict(refs[0])
             ref['cells'] = {fid: [row for r in refs for row in r['cells'][fid]] for fid in refs[0]['cells']}
             ref['y'] = None if refs[0]['y'] is None else [v for r in refs for v in r['y']]
@@ -594,10 +726,19 @@ class C08(frame.Findings, core.Check):
 
     # -- model side ----------------------------------------------------------------------------------
     def model_requests(self, case):
+        if case.get('oracle_only'):
+            return []
         kind = case['kind']
         if kind == 'cat':
             part = lambda p: {'frame': frame.model_frame(p['frame']), 'ops': frame.model_ops(p['ops'])}
-            return [{'cmd': 'cat', 'dim': case['dim'], 'parts': [part(p) for p in case['parts']],
+            whole = case['whole']['frame']
+            cparts = self.parts_of(case)
+            if len(cparts) > 8 and all(p['frame'] is whole or p['frame'] == whole for p in cparts):
+                # many parts of one frame: the frame travels once (driver: parts without `frame` use the common one)
+                return [{'cmd': 'cat', 'dim': case['dim'], 'frame': frame.model_frame(whole),
+                         'parts': [{'ops': frame.model_ops(p['ops'])} for p in cparts],
+                         'eqto': {'ops': frame.model_ops(case['whole']['ops'])}}]
+            return [{'cmd': 'cat', 'dim': case['dim'], 'parts': [part(p) for p in cparts],
                      'eqto': part(case['whole'])}]
         if kind == 'eq':
             return [{'cmd': 'eq', 'a': frame.model_frame(case['a']), 'b': frame.model_frame(case['b'])}]
@@ -615,6 +756,8 @@ class C08(frame.Findings, core.Check):
         return [{'cmd': 'prog', 'frame': fr, 'ops': ops}]
 
     def model_outcome(self, case, replies):
+        if case.get('oracle_only'):
+            return core.SKIP_MODEL
         r = replies[0]
         if case['kind'] == 'lookup_mat':
             k = len(case['ops'])
@@ -652,26 +795,55 @@ class C08(frame.Findings, core.Check):
             return core.stable_hash(case) if case['frame']['feats'] else None
         return core.stable_hash(case)
 
+    @staticmethod
+    def _bucket(x):
+        return str(x) if x <= 7 else '8..16' if x <= 16 else '17..256' if x <= 256 else '257..1024' if x <= 1024 else '1025+'
+
+    @staticmethod
+    def _frame_labels(spec):
+        labs = []
+        if any(ft['payload'] == 'float64' for ft in spec['feats']):
+            labs.append('dtype:float64-feature')
+        if any(ft['kind'] == 'dict' and ft['keys'][0] != 'input_ids' for ft in spec['feats']):
+            labs.append('dict:other-key-order')
+        if spec['num_rows'] is not None and spec['feats']:
+            labs.append('explicit-num_rows-with-features')
+        if spec['R'] >= 257:
+            labs.append('scale:rows>=257' if spec['R'] < 16385 else 'scale:rows>=16385(oracle-only)')
+        if any(ft['C'] >= 257 for ft in spec['feats']):
+            labs.append('scale:cols>=257')
+        return labs
+
     def classify(self, case, out):
         kind = case['kind']
         res = 'raises' if out in ('raises', 'part-raises') else 'ok'
+        sc = [f"scale:{case['scaled']}:{kind}"] if case.get('scaled') else []
         if kind == 'cat':
-            labs = [f"cat{case['dim']}:{case['mode']}:{case.get('mut', '-')}:{res}", f"parts:{len(case['parts'])}"]
+            k = len(case['parts'])
+            labs = sc + [f"cat{case['dim']}:{case['mode']}:{case.get('mut', '-')}:{res}", f"parts:{self._bucket(k)}"]
+            if k >= 17:
+                labs.append('scale:parts>=17' if k < 257 else 'scale:parts>=257')
             w = case['whole']['frame']
-            labs += [f"rows:{w['R']}", f"preselected:{bool(case['whole']['ops'])}"]
-            labs += [f"kind:{ft['kind']}" for ft in w['feats']]
+            labs += [f"rows:{self._bucket(w['R'])}", f"preselected:{bool(case['whole']['ops'])}"]
+            labs += [f"kind:{ft['kind']}" for ft in w['feats']] + self._frame_labels(w)
+            if case.get('again') and res == 'ok':
+                labs.append('reuse:same-cat-twice+twins')
+            orders = {tuple(ft['keys']) for p in self.parts_of(case) for ft in p['frame']['feats'] if ft['kind'] == 'dict'}
+            if len(orders) > 1:
+                labs.append('dict:key-orders-differ-between-parts')
             if any(ragged.py_len(p['ops'][-1]['ix'], 10 ** 6) == 0 for p in case['parts'] if p['ops']
                    and p['ops'][-1]['ix']['t'] == 'slice' and p['ops'][-1]['ix']['a'] is not None
                    and p['ops'][-1]['ix']['a'] == p['ops'][-1]['ix']['b']):
                 labs.append('has-empty-part')
             return labs
         if kind == 'eq':
-            return [f"eq:{case['label']}:{'equal' if out == {'ab': True, 'ba': True} else 'unequal' if isinstance(out, dict) else out}",
-                    f"rows:{case['a']['R']}"]
+            return sc + [f"eq:{case['label']}:{'equal' if out == {'ab': True, 'ba': True} else 'unequal' if isinstance(out, dict) else out}",
+                         f"rows:{self._bucket(case['a']['R'])}"] + self._frame_labels(case['a'])
         if kind == 'make':
             return [f"make:{case['label']}:{res}"]
         if kind == 'lookup':
-            return ['lookup:frame'] + [f"lookup:{'ok' if isinstance(o, dict) else o}" for o in out[-3:]]
+            return sc + ['lookup:frame'] + [f"lookup:{'ok' if isinstance(o, dict) else o}" for o in out[-3:]] + \
+                self._frame_labels(case['frame'])
         return ['lookup:materialized'] + [f"materialized-col:{c['stype']}" for c in case['dataset']['cols']]
 
     def extra_checks(self, rng, tier, report):
